@@ -165,20 +165,37 @@ class Effects:
         if len(base_calls) != 1:
             return False, f"overriding generic_visit delegates to the base implementation {len(base_calls)} times"
         call, arg = base_calls[0]
-        if not isinstance(arg, ast.Name):
+        # the copy is made in generic_visit itself, or in a private helper it hands the node to
+        host, host_fa, host_param, at_call = gv, fa, node_p, call
+        copy_name = None
+        if isinstance(arg, ast.Name):
+            copy_name = arg.id
+        elif isinstance(arg, ast.Call) and len(arg.args) == 1 and not arg.keywords and isinstance(arg.args[0], ast.Name) and arg.args[0].id == node_p:
+            h = None
+            f_ = arg.func
+            if isinstance(f_, ast.Name):
+                tgt = m.lookup_target(m.resolve_dotted(gv.module, gv, f_.id))
+                h = tgt if isinstance(tgt, FuncInfo) else None
+            elif isinstance(f_, ast.Attribute) and isinstance(f_.value, ast.Name) and f_.value.id == gv.pos_params[0]:
+                h = m.find_method(ci, f_.attr)
+            if h is not None:
+                hp = h.pos_params[-1] if h.pos_params else None
+                rets = [n for n in own_nodes(h) if isinstance(n, ast.Return)]
+                if hp is not None and len(rets) == 1 and isinstance(rets[0].value, ast.Name):
+                    host, host_fa, host_param, at_call, copy_name = h, self.ctx.analysis(h), hp, rets[0], rets[0].value.id
+        if copy_name is None:
             return False, "base generic_visit is not applied to a local copy"
-        t = strip_sites(fa.term_of(arg))
+        t = strip_sites(host_fa.term_of(ast.Name(id=copy_name, ctx=ast.Load()), host_fa.cfg.node_of(at_call))) if host is not gv else strip_sites(fa.term_of(arg))
         base = t[1] if t[0] == "upd" else t
-        if not (base[0] == "app" and base[1] == ("global", "copy.copy") and base[2] == (("param", node_p),)):
+        if not (base[0] == "app" and base[1] == ("global", "copy.copy") and base[2] == (("param", host_param),)):
             return False, f"base generic_visit is applied to {show(t)[:80]}, not to copy.copy({node_p})"
-        copy_name = arg.id
         # the list-field rebinding loop
         found = False
-        for n in own_nodes(gv):
+        for n in own_nodes(host):
             if not isinstance(n, ast.For):
                 continue
-            it = strip_sites(fa.term_of(n.iter, fa.cfg.node_of(n)))
-            if not (it[0] == "app" and it[1] == ("global", "ast.iter_fields") and it[2] == (("param", node_p),)):
+            it = strip_sites(host_fa.term_of(n.iter, host_fa.cfg.node_of(n)))
+            if not (it[0] == "app" and it[1] == ("global", "ast.iter_fields") and it[2] == (("param", host_param),)):
                 continue
             if not (isinstance(n.target, ast.Tuple) and len(n.target.elts) == 2 and all(isinstance(e, ast.Name) for e in n.target.elts)):
                 continue
@@ -197,7 +214,7 @@ class Effects:
                     if len(a) == 3 and isinstance(a[0], ast.Name) and a[0].id == copy_name and isinstance(a[1], ast.Name) and a[1].id == fvar and _is_list_copy(a[2], vvar):
                         found = True
             # the loop must run before the delegation on every path
-            if found and not fa.cfg.dominates(fa.cfg.node_of(n), fa.cfg.node_of(call)):
+            if found and not host_fa.cfg.dominates(host_fa.cfg.node_of(n), host_fa.cfg.node_of(at_call)):
                 return False, "list-field copy loop does not dominate the delegation"
         if not found:
             return False, "no loop re-binding every list field of the copy to a new list (the in-place child-list edits of the base generic_visit would land on the original's lists)"
